@@ -240,6 +240,12 @@ func scenario(k int) {
 		w.stopCall = time.Now()
 		t.Stop()
 		sess.WaitStatus(t, 10*time.Second, torrent.Stopped)
+		// the download may finish between the sample above and the moment the stop is processed (seen at
+		// VERIF_SEED=2 on a loaded machine: 'completed' and 'stopped' in the same millisecond): pieces cannot be gained
+		// after the stop, so holding every piece now while not at the start means it completed during this run
+		if stS := t.Stats(); !w.wasCompleteAtStart && stS.Pieces.Total > 0 && stS.Pieces.Have == stS.Pieces.Total {
+			w.completedDuring = true
+		}
 		time.Sleep(50 * time.Millisecond)
 		w.end = time.Now()
 		runs = append(runs, w)
